@@ -42,16 +42,29 @@ _BT = {'Buildable': fdl.Buildable, 'Config': fdl.Config, 'Partial': fdl.Partial}
 def strategy_(draw, tier):
   recipe = draw(dags.dag(
       max_nodes=10, min_nodes=3, tags=True, bts=('Config', 'Config', 'Partial'),
-      kinds=['B', 'B', 'B', 'B', 'list', 'tuple', 'dict', 'nt'],
+      kinds=['B', 'B', 'B', 'B', 'list', 'tuple', 'dict', 'nt', 'Bpo'],
       fns=['things:f2', 'things:Base', 'things:Mid', 'things:LeafCls', 'things:Other', 'things:h1'],
       root_kinds=['B'], p_alias=0.8, allow_copyof=draw(st.booleans())))
+  T = draw(st.sampled_from(['TagA', 'TagB', 'TagC', 'TagX']))
+  if draw(st.floats(0, 1)) < 0.25:
+    # a tag on a positional-only parameter (keyed by index) that has a default and no value
+    root = recipe['nodes'].pop()
+    i = len(recipe['nodes'])
+    npos = draw(st.integers(0, 1))
+    recipe['nodes'].append({'k': 'B', 'bt': 'Config', 'fn': {'kind': 'sym', 'name': 'things:po2'},
+                            'pos': [{'leaf': 'set-p0'}][:npos], 'kw': {}, 'edits': [],
+                            'tags': [[draw(st.integers(npos, 1)), T]]})
+    names = dags.SIMPLE[root['fn']['name']][1]
+    root['kw'][names[-1]] = i
+    recipe['nodes'].append(root)
+    recipe['root'] = i + 1
   return {
       'recipe': recipe, 'F': draw(st.sampled_from(_FS)), 'match_subclasses': draw(st.booleans()),
       'bt': draw(st.sampled_from(['Buildable', 'Buildable', 'Config', 'Partial'])),
       'op': draw(st.sampled_from(['iter', 'set', 'get', 'replace', 'replace', 'replace_deepcopy', 'tag_iter', 'reuse'])),
       'reuse_edit': draw(st.sampled_from(['add', 'remove', 'both'])), 'ri': draw(st.integers(0, 30)),
       'v': draw(st.sampled_from(['leaf', 'list', 'config', 'copy_of_match'])),
-      'vleaf': draw(leaves.leaf('plain')), 'T': draw(st.sampled_from(['TagA', 'TagB', 'TagC', 'TagX'])),
+      'vleaf': draw(leaves.leaf('plain')), 'T': T,
   }
 
 
@@ -109,6 +122,8 @@ def check(case):
             v = b.__arguments__[k]
           elif isinstance(k, str) and k in info.default:
             v = info.default[k]
+          elif isinstance(k, int) and k < info.npos and info.positional[k] in info.default:
+            v = info.default[info.positional[k]]   # positional-only parameters are keyed by index
           else:
             v = fdl.NO_VALUE
           want[_vkey(v)] += 1
